@@ -56,7 +56,8 @@ func runMemLock(c *ctx) {
 					lease := time.Duration(15+r.intn(30)) * time.Millisecond
 					now := time.Since(start).Microseconds()
 					err := holders[w].Acquire(context.Background(), lease)
-					ops = append(ops, fmt.Sprintf("a:%d:%d:%d:%d", w, now, lease.Microseconds(), b2i(err == nil)))
+					after := time.Since(start).Microseconds() // the lock read its own clock somewhere between the two stamps
+					ops = append(ops, fmt.Sprintf("a:%d:%d:%d:%d:%d", w, now, lease.Microseconds(), b2i(err == nil), after-now))
 				}
 				time.Sleep(time.Duration(r.intn(28)) * time.Millisecond)
 			}
